@@ -3,7 +3,7 @@ from . import schema_core, valuetypes
 
 
 def build(reg):
-    specs = schema_core.build_c12(reg) + valuetypes.add_valuetypes(reg)
+    specs = schema_core.build_c12(reg) + valuetypes.add_valuetypes(reg) + valuetypes.add_parsers(reg)
     return {
         "verify": specs,
         "lemmas": [],
